@@ -109,8 +109,9 @@ PROPS = {
               "a fork of it is visible; overlap test exact) - Proofs/VecHB*.lean, hb_invariants. Hypotheses: what the event checkers guarantee (C13: parents first, "
               "self-parent first with seq+1, 1 <= seq < 2^31-2, creator a validator) and the 32-bit branch-count bound (AtLeastOneFork compares a uint32). Not proved: "
               "that the Go code equals the model (correspondence), the adapters wrapper. Correspondence: merged highest-before vectors (both accessors) compared with "
-              "fork/max-seq of the graph definition.",
-              props=["LachesisVerif.Props.C06"], level="proof", streams=["vec", "cons"]),
+              "fork/max-seq of the graph definition."
+              " Persistence of the index (Props/VecPersist.lean over Model/VecPersist.lean: store + unflushed overlay + in-memory branch table; the conditions of Engine.Flush / DropNotFlushed / InitBranchesInfo regenerated as Gen.VecPersist): for every sequence of add / flush / DropNotFlushed / query / restart the working view equals the functional run over the surviving events (working_view_eq_run), a restart gives the run over the FLUSHED events with the persisted branch table even when no fork happened yet (reload_eq_run_flushed, reload_branch_table, branches_record_persisted, fork_after_restart), and add followed by DropNotFlushed leaves no trace (add_drop_no_trace, add_drop_erased); negative witness for a Flush that persists the table only once a fork exists (Mutant.witness). ",
+              props=["LachesisVerif.Props.C06", "LachesisVerif.Props.VecPersist"], level="proof", streams=["vec", "cons"]),
     "C07": _p("Proof (partial): the forkless-cause result cache (the only volatile state that survives DropNotFlushed) is transparent for every "
               "history of adds, commits, roll-backs, queries and evictions, provided an id never denotes two different events (negative witness for "
               "the pre-fix temporary ids); the Orderer model writes nothing before the frame check. Determinism of the uncached answer is discharged "
@@ -124,8 +125,9 @@ PROPS = {
               "all instances must keep agreeing with the reference (which ignores them by construction). "
               "Combined model (Props/Consensus.lean over Model/Indexed.lean = IndexedLachesis): Consensus.indexed_no_trace - a buildIndexed or a rejected processIndexed (wrong frame / election error) made at any point of any log of Process/Build calls returns literally the "
               "previous (Orderer state, index state, indexing order), so the final state and every later answer equal those of the log without the call (Consensus.processIndexed_rejected, buildIndexed_state); no hypotheses - true by construction of the model's transaction "
-              "(Flush = keep the new index state, DropNotFlushed = keep the old one). Still not proved: that the real DropNotFlushed restores the tables (correspondence).",
-              props=["LachesisVerif.Props.C07", "LachesisVerif.Props.Consensus"], level="proof"),
+              "(Flush = keep the new index state, DropNotFlushed = keep the old one). Still not proved: that the real DropNotFlushed restores the tables (correspondence)."
+              " Persistence of the index (Props/VecPersist.lean over Model/VecPersist.lean: store + unflushed overlay + in-memory branch table; the conditions of Engine.Flush / DropNotFlushed / InitBranchesInfo regenerated as Gen.VecPersist): for every sequence of add / flush / DropNotFlushed / query / restart the working view equals the functional run over the surviving events (working_view_eq_run), a restart gives the run over the FLUSHED events with the persisted branch table even when no fork happened yet (reload_eq_run_flushed, reload_branch_table, branches_record_persisted, fork_after_restart), and add followed by DropNotFlushed leaves no trace (add_drop_no_trace, add_drop_erased); negative witness for a Flush that persists the table only once a fork exists (Mutant.witness). ",
+              props=["LachesisVerif.Props.C07", "LachesisVerif.Props.Consensus", "LachesisVerif.Props.VecPersist"], level="proof"),
     "C08": _p("Proof (partial: one epoch): on Model.Orderer (persisted = epoch, validators, LastDecidedFrame, roots table; volatile = the election; restart = "
               "bootstrap, which re-creates the election at LastDecidedFrame+1 and re-votes the known roots in table order). "
               "Whole continuations, from L5 as a proved invariant of process runs (OInv/OpenEl, C10): C08_restart_invisible_partial - for every valid history with accepted frames and "
@@ -147,8 +149,9 @@ PROPS = {
               "Composed with the vector index (Props/Consensus.lean, Model/Indexed.lean): Consensus.indexed_restart_invisible_partial - the combined instance that processed pre is restarted by Bootstrap over the PERSISTED index state (nothing re-indexed: same VState, same indexing order); "
               "the restart succeeds, emits nothing, keeps the persisted Orderer state, and the restarted instance answers every event of post like the one that kept running (all accepted, same blocks incl. cheater lists per event), ending with the same persisted Orderer state and the same index. "
               "GONE there: hobs before and after the restart (Consensus.observe_eq_FC + Compose.bootstrap_congr), hvals (valsOK_of_build, C12), hbound (frameBound_of_checks, C13). "
-              "Hypotheses that remain there: the property's own (Valid history, claimed frames obey the frame rule, forkers < 1/3, parents-first orders), the application never seals (one epoch), nVals + number of events < 2^32 (C05: 32-bit branch ids), validators named by canonical index with non-zero 32-bit weights and the record built by Model.Pos.build (WeightsOK/BuiltFor), every event passed eventcheck with its claimed frame and parent list (Checked). Still not modelled: the reload of the index tables from BranchesInfo, store caches (C33), restarts across seals.",
-              props=["LachesisVerif.Props.C08", "LachesisVerif.Props.Consensus"], level="proof"),
+              "Hypotheses that remain there: the property's own (Valid history, claimed frames obey the frame rule, forkers < 1/3, parents-first orders), the application never seals (one epoch), nVals + number of events < 2^32 (C05: 32-bit branch ids), validators named by canonical index with non-zero 32-bit weights and the record built by Model.Pos.build (WeightsOK/BuiltFor), every event passed eventcheck with its claimed frame and parent list (Checked). Still not modelled: the reload of the index tables from BranchesInfo, store caches (C33), restarts across seals."
+              " Persistence of the index (Props/VecPersist.lean over Model/VecPersist.lean: store + unflushed overlay + in-memory branch table; the conditions of Engine.Flush / DropNotFlushed / InitBranchesInfo regenerated as Gen.VecPersist): for every sequence of add / flush / DropNotFlushed / query / restart the working view equals the functional run over the surviving events (working_view_eq_run), a restart gives the run over the FLUSHED events with the persisted branch table even when no fork happened yet (reload_eq_run_flushed, reload_branch_table, branches_record_persisted, fork_after_restart), and add followed by DropNotFlushed leaves no trace (add_drop_no_trace, add_drop_erased); negative witness for a Flush that persists the table only once a fork exists (Mutant.witness). ",
+              props=["LachesisVerif.Props.C08", "LachesisVerif.Props.Consensus", "LachesisVerif.Props.VecPersist"], level="proof"),
     "C09": _p("Proof. Implementation level (Model.Orderer, run in lock-step against the Go code; unconditional in the oracles): if EndBlock returns a "
               "set at block (E,f), the state after onFrameDecided is literally Model.Orderer.initial (E+1 as idx.Epoch) set = the state Reset produces "
               "(LastDecidedFrame 0, frame to decide 1, no roots, fresh election), hence process/build/bootstrap continuations coincide "
